@@ -207,6 +207,10 @@ SPEC_MUTANTS = [
     ("CoStream", "quick", "try_for_each swallows an error observed while waiting for a free slot",
      ["         ELSE \\* progress / send: remember the error, stop taking items; an item in hand is dropped\n              /\\ fs' = [f0 EXCEPT !.residual = val, !.phase = \"flush\", !.arm = \"none\", !.hand = NoItem]"],
      ["         ELSE \\* progress / send: remember the error, stop taking items; an item in hand is dropped\n              /\\ fs' = [f0 EXCEPT !.residual = IF ctx = \"bp\" THEN -1 ELSE val, !.phase = \"flush\", !.arm = \"none\", !.hand = NoItem]"]),
+    ("NestRace", "quick", "the inner join of a nest keeps the waker of its first poll (no set_waker later): a fresh caller waker per poll loses the wake-up",
+     ["LET ird1 == [fs.ird EXCEPT !.parent = CallerWaker] IN"], ["LET ird1 == [fs.ird EXCEPT !.parent = IF @[1] = \"none\" THEN CallerWaker ELSE @] IN"]),
+    ("NestRace", "quick", "the race polls the losing inner join again after the leaf has won (no `done` guard)",
+     ["/\\ pc = \"begin\" /\\ ~fs.odone"], ["/\\ pc = \"begin\""]),
 ]
 
 
